@@ -323,6 +323,32 @@ def tr_ignore(repo, consumed):
     return out, pat
 
 
+def tr_remove_useless(repo, consumed):
+    """how remove_useless_nodes re-attaches nodal variables to the kept nodes:
+    by storage position (value.data[useful_indices]) or by node id
+    (value.loc[self.nodes.ids].values)"""
+    txt, tree = _src(repo, 'femio/fem_data.py')
+    fn = _find_func(_find_class(tree, 'FEMData'), 'remove_useless_nodes')
+    consumed['fem_data.py:remove_useless_nodes'] = _region(txt, fn)
+    loops = [n for n in fn.body if isinstance(n, ast.For)
+             and ast.unparse(n.iter) == 'self.nodal_data.items()']
+    if len(loops) != 1 or ast.unparse(loops[0].target) != '(key, value)' or len(loops[0].body) != 1:
+        raise TranslateError('remove_useless_nodes: nodal_data loop not found')
+    st = loops[0].body[0]
+    if not (isinstance(st, ast.Assign) and ast.unparse(st.targets[0]) == 'self.nodal_data[key]'
+            and isinstance(st.value, ast.Call) and ast.unparse(st.value.func) == 'FEMAttribute'
+            and len(st.value.args) == 3 and not st.value.keywords
+            and ast.unparse(st.value.args[0]) == 'value.name'
+            and ast.unparse(st.value.args[1]) == 'self.nodes.ids'):
+        raise TranslateError('remove_useless_nodes: unexpected nodal_data assignment')
+    x = ast.unparse(st.value.args[2])
+    if x == 'value.data[useful_indices]':
+        return False
+    if x == 'value.loc[self.nodes.ids].values':
+        return True
+    raise TranslateError(f'remove_useless_nodes: nodal data re-attached by {x!r}: not understood')
+
+
 def tr_read_array(repo, consumed):
     txt, tree = _src(repo, 'femio/util/string_parser.py')
     cls = _find_class(tree, 'StringSeries')
@@ -346,6 +372,7 @@ def translate(repo):
     types = tr_element_types(repo, consumed)
     ignore, ignore_src = tr_ignore(repo, consumed)
     default_float_fmt = tr_read_array(repo, consumed)
+    rebind_by_id = tr_remove_useless(repo, consumed)
     if elem_fmt != '%d':
         raise TranslateError(f'element rows are written with {elem_fmt!r}, not %d')
     return {
@@ -354,6 +381,7 @@ def translate(repo):
         'element_header': elem_hdr, 'frac_digits': _fmt_digits(real_fmt, 'write_data'),
         'default_frac_digits': _fmt_digits(default_float_fmt, 'read_array'),
         'element_types': types, 'ignore_pats': ignore, 'ignore_src': ignore_src,
+        'rebind_by_id': rebind_by_id,
     }, consumed
 
 
@@ -394,6 +422,9 @@ def emit(t):
         f'Definition default_frac_digits : nat := {t["default_frac_digits"]}.',
         f'(* fem_data.py _read_files: pattern_ignore = {t["ignore_src"]} *)'.replace('*)', '* )')[:-3] + '*)',
         f'Definition ignore_pats : list ipat := [{"; ".join(t["ignore_pats"])}].',
+        '(* fem_data.py remove_useless_nodes: nodal variables re-attached by node id (true) or by',
+        '   storage position (false) *)',
+        f'Definition rebind_by_id : bool := {"true" if t["rebind_by_id"] else "false"}.',
         '',
     ]
     return '\n'.join(lines)
